@@ -264,7 +264,7 @@ func c01ModCases(yield func(vc01.Case) bool) {
 				for _, hs := range shapes {
 					for _, bl := range bodies {
 						for _, mod := range vc01.ModsNoClass {
-							if !yield(vc01.Case{Codec: "dubbo", Dir: dir, Kind: "mod", Mode: mode, Mod: mod, Class: cl, Hdr: hs, Body: bl, Seed: cl + bl + 1, ID: 0x0a0b0c0d0e0f1011, NewID: 0xf1f2f3f4f5f6f7f8}) {
+							if !vc01.ModTwins(vc01.Case{Codec: "dubbo", Dir: dir, Kind: "mod", Mode: mode, Mod: mod, Class: cl, Hdr: hs, Body: bl, Seed: cl + bl + 1, ID: 0x0a0b0c0d0e0f1011, NewID: 0xf1f2f3f4f5f6f7f8}, yield) {
 								return
 							}
 						}
@@ -289,6 +289,6 @@ func TestVerifC01DubboModify(t *testing.T) {
 	p := vreport.Begin("C01", "dubbo-modify", time.Duration(vreport.Pick(60, 900))*time.Second)
 	a := c01Adapter()
 	complete := vreport.Run(p, c01ModCases, func(p *vreport.Part, c vc01.Case) { vc01.CheckMod(p, a, c) })
-	p.End(complete, "dirs {request (both listener modes), response} x path {1,256} x attachment shapes with distinct keys x argument/payload length {0,1,256,65536 | thorough: all} x 10 modifications",
-		"modification applied through HeaderMap.Set/Del and SetData; then three upstream attempts (SetData(same buffer object), SetRequestId, Encode): the first Encode must return an error or, like each later one, bytes that the reference parser AND a fresh Decode read back as exactly the modified headers/body with consistent lengths. The header view of a dubbo request is the service metadata (dubbo, service, version, method; plus the attachments on an ingress_dubbo listener)")
+	p.End(complete, "dirs {request (both listener modes), response} x path {1,256} x attachment shapes with distinct keys x argument/payload length {0,1,256,65536 | thorough: all} x 10 modifications"+vc01.ModTwinsBound,
+		"modification applied through HeaderMap.Set/Del and SetData; then three upstream attempts (SetData(same buffer object), SetRequestId, Encode): the first Encode must return an error or, like each later one, bytes that the reference parser AND a fresh Decode read back as exactly the modified headers/body with consistent lengths. The header view of a dubbo request is the service metadata (dubbo, service, version, method; plus the attachments on an ingress_dubbo listener)"+vc01.ModTwinsRule)
 }
